@@ -21,7 +21,7 @@ def uri(d, f, p, noslash=False):
     return fp + "::" + ("/".join(p) if noslash else pstr(p))
 
 
-def observe_file(fp, paths):
+def observe_file(fp, paths, via_cli=False):
     import cooler
     import h5py
     if not os.path.exists(fp):
@@ -55,7 +55,16 @@ def observe_file(fp, paths):
         out.append({"p": p, "content": content, "is_cooler": ic, "raised": raised})
     lraised = ""
     try:
-        lst = [[x for x in s.split("/") if x] for s in cooler.fileops.list_coolers(fp)]
+        if via_cli:
+            from click.testing import CliRunner
+            from cooler.cli import cli
+            res = CliRunner().invoke(cli, ["ls", fp])
+            if res.exit_code != 0:
+                raise res.exception if isinstance(res.exception, Exception) else RuntimeError(res.output[-200:])
+            names = [ln.split("::", 1)[1] for ln in res.output.split("\n") if "::" in ln]
+        else:
+            names = cooler.fileops.list_coolers(fp)
+        lst = [[x for x in s.split("/") if x] for s in names]
         lst = [q for q in lst if len(q) <= 2]
     except Exception as ex:
         lst, lraised = [], type(ex).__name__
@@ -78,7 +87,18 @@ def st_history(case, ctx):
             else:
                 s = uri(d, op["sf"], op["sp"], op.get("noslash", False))
                 t = uri(d, op["df"], op["dp"], op.get("noslash", False))
-                if op["op"] == "cp":
+                if case.get("via") == "cli":
+                    from click.testing import CliRunner
+                    from cooler.cli import cli
+                    args = [{"cp": "cp", "mv": "mv", "ln": "ln", "lns": "ln"}[op["op"]], s, t]
+                    if op["op"] == "lns":
+                        args.append("--soft")
+                    if op["ow"]:
+                        args.append("--overwrite")
+                    res = CliRunner().invoke(cli, args)
+                    if res.exit_code != 0:
+                        raise res.exception if isinstance(res.exception, Exception) else RuntimeError(res.output[-200:])
+                elif op["op"] == "cp":
                     cooler.fileops.cp(s, t, overwrite=op["ow"])
                 elif op["op"] == "mv":
                     cooler.fileops.mv(s, t, overwrite=op["ow"])
@@ -89,6 +109,6 @@ def st_history(case, ctx):
         except Exception as ex:
             ok, err = False, type(ex).__name__
         steps.append({"ok": ok, "err": err,
-                      "f1": observe_file(os.path.join(d, "f1.cool"), paths),
-                      "f2": observe_file(os.path.join(d, "f2.cool"), paths)})
+                      "f1": observe_file(os.path.join(d, "f1.cool"), paths, case.get("via") == "cli"),
+                      "f2": observe_file(os.path.join(d, "f2.cool"), paths, case.get("via") == "cli")})
     return {"steps": steps}
